@@ -151,7 +151,7 @@ fn prepare_regex(pattern: String, substring: bool) -> String {
         pattern.to_string()
     };
 
-    pattern.trim_matches(|c| c == '\'' || c == '"').to_string()
+    pattern
 }
 
 fn value<T: Queryable>(state: State<T>) -> State<T> {
